@@ -1,3 +1,227 @@
-import Msmart.Model.Session
+/-
+  C08 — retry, timeout and recovery contract of an exchange.
+
+  Over the Session model, for EVERY peer (reaction function), every connection outcome and every
+  state: the number of transmissions of a request is bounded by the retry budget, a success needed
+  at least one, a final timeout used all of them and dropped the connection.  For peers that stay
+  silent for k transmissions and then answer promptly: exactly k + 1 transmissions, and the answer is
+  returned (retransmission stops as soon as a response arrives).  Device level: the failures are
+  reported as "no response", and a refresh without responses reports the device offline.
+  Recovery: from every state in which the connection is not alive (dropped, closed by the peer,
+  refused, expired), on a quiet network, the next exchange with a promptly responding V2 device
+  returns its response after a single transmission on a new connection.
+-/
+import Msmart.Lemmas.SessionRetry
+import Msmart.Lemmas.SessionContain
+import Msmart.Props.C13
+
 namespace Msmart.Props.C08
+open Msmart Msmart.Model Msmart.Model.Session Msmart.Lemmas.Sess
+
+theorem nData_of_shape_c {tc : List Ev} (h : ∀ e ∈ tc, isClosed e = true ∨ isConnect e = true) : nData tc = 0 := by
+  unfold nData
+  rw [List.length_eq_zero_iff, List.filter_eq_nil_iff]
+  intro e he; rcases h e he with h1 | h1 <;> cases e <;> simp_all [isClosed, isConnect, isData]
+
+theorem nData_of_shape_a {t : Option Bytes} {ta : List Ev}
+    (h : ∀ e ∈ ta, HsTok t e ∨ isAccept e = true ∨ isClosed e = true) : nData ta = 0 := by
+  unfold nData
+  rw [List.length_eq_zero_iff, List.filter_eq_nil_iff]
+  intro e he
+  rcases h e he with ⟨_, _, _, rfl, _⟩ | h1 | h1
+  · simp [isData]
+  · cases e <;> simp_all [isAccept, isData]
+  · cases e <;> simp_all [isClosed, isData]
+
+/-- **C08 (transmission bounds).** For every peer and every state: an exchange transmits its request at
+    most `retries` times; if it returns responses it transmitted at least once (for `retries ≥ 1`);
+    if it fails with a timeout after transmitting at all, it transmitted exactly `retries` times and
+    the connection has been dropped.  (`tx` = data packets the exchange appended to the write log.) -/
+theorem tx_bounds (p : Params) (rx : Reactions) (s s' : S) (frame : Bytes) (retries : Nat) (r : R (List Bytes))
+    (h : lanSend p rx s frame retries = (r, s')) :
+    ∃ tr, evsOf s' = evsOf s ++ tr ∧ nData tr ≤ retries ∧
+      (∀ got, r = .ok got → retries = 0 ∨ 1 ≤ nData tr) ∧
+      (r = .error .timeout → nData tr ≠ 0 → nData tr = retries ∧ s'.l.conn = none) ∧
+      (∀ e ∈ tr, isData e = true → DataOf frame e) := by
+  obtain ⟨s1, s2, tc, ta, te, g1, g2, g3, k1, k2, k3, k4, _, _, _, k8, k9⟩ := lanSend_tr h
+  have hz1 := nData_of_shape_c k1
+  have hz2 := nData_of_shape_a k2
+  have hn : nData (tc ++ ta ++ te) = nData te := by rw [nData_append, nData_append, hz1, hz2]; omega
+  refine ⟨tc ++ ta ++ te, ((g1.trans g2).trans g3).evs, by rw [hn]; exact k4, ?_, ?_, ?_⟩
+  · intro got hg; rw [hn]; exact k9 got hg
+  · intro hr hne
+    rw [hn] at hne ⊢
+    have hte : te ≠ [] := by intro h0; rw [h0] at hne; exact hne rfl
+    obtain ⟨h1, h2⟩ := k8 hr hte
+    refine ⟨h1, ?_⟩
+    cases hc : s'.l.conn with
+    | none => rfl
+    | some c => simp [coreOf, hc] at h2
+  · intro e he hd
+    rcases List.mem_append.1 he with he | he
+    · rcases List.mem_append.1 he with he | he
+      · rcases k1 e he with h1 | h1 <;> cases e <;> simp_all [isClosed, isConnect, isData]
+      · rcases k2 e he with ⟨_, _, _, rfl, _⟩ | h1 | h1
+        · simp [isData] at hd
+        · cases e <;> simp_all [isAccept, isData]
+        · cases e <;> simp_all [isClosed, isData]
+    · rcases k3 e he with h1 | h1
+      · exact h1
+      · cases e <;> simp_all [isClosed, isData]
+
+/-- **C08 (retransmission stops when a response arrives).** On an idle connection and a quiet network:
+    if the peer leaves the first `k` transmissions unanswered and answers the next one within the
+    read timeout with a decodable response `f`, the retry loop (any budget `n > k`) returns `f` after
+    exactly `k + 1` transmissions. -/
+theorem stops_when_answered (p : Params) (rx : Reactions) (frame : Bytes) (k n : Nat) (s : S) (c : Conn)
+    (acc : List Bytes) (hk : k < n) (h : Ready s c) (hsil : SilentFor rx c k)
+    (d : Nat) (b pkt f : Bytes) (rest : List Bytes)
+    (hrx : rx c.core.cid (c.core.nWrites + k) = [(d, .data b)]) (hd : d ≤ p.readTimeout)
+    (hseg : segQueue c.core.v3 c.buffer b = pkt :: rest) (hdec : decodeWith c.core.v3 c.core.localKey pkt = .ok f) :
+    ∃ s', sendLoop p rx frame n s acc = (.ok (acc ++ [f]), s') ∧ nData (evsOf s') = nData (evsOf s) + (k + 1) := by
+  obtain ⟨s', _, h1, h2, _⟩ := sendLoop_answered_at (p := p) (rx := rx) (frame := frame) k n s c acc hk h hsil d b pkt f rest hrx hd hseg hdec
+  exact ⟨s', h1, h2⟩
+
+/-- **C08 (exhausting the retries).** If none of the `n ≥ 1` transmissions is answered: exactly `n`
+    transmissions, a timeout, and the connection is dropped. -/
+theorem timeout_after_all_retries (p : Params) (rx : Reactions) (frame : Bytes) (n : Nat) (s : S) (c : Conn)
+    (acc : List Bytes) (h : Ready s c) (hsil : SilentFor rx c (n + 1)) :
+    ∃ s', sendLoop p rx frame (n + 1) s acc = (.error .timeout, s') ∧
+      nData (evsOf s') = nData (evsOf s) + (n + 1) ∧ s'.l.conn = none :=
+  sendLoop_all_silent n s c acc h hsil
+
+/-- **C08 (device level).** `Device._send_command` turns a timeout, a protocol error and an
+    authentication error into "no response" (an empty list) -/
+theorem failures_become_no_response (p : Params) (rx : Reactions) (s : S) (frame : Bytes) (e : Err)
+    (he : e = .timeout ∨ e = .protocol ∨ e = .auth)
+    (h : (lanSend p rx s frame Generated.lanRetries).1 = .error e) : (deviceSend p rx s frame).1 = .ok [] := by
+  unfold deviceSend
+  cases hl : lanSend p rx s frame Generated.lanRetries with
+  | mk r s1 =>
+    rw [hl] at h
+    simp only at h
+    subst h
+    rcases he with rfl | rfl | rfl <;> rfl
+
+/-- … and a `refresh()` whose commands all got no response reports the device offline (and leaves
+    every other attribute as it was) -/
+theorem no_response_reported_offline (r r' : Run) (h : ∀ reply ∈ r.replies, reply = [])
+    (hr : refresh r = .ok r') : r'.dev = { r.dev with online := false, supported := false } := by
+  apply C13.rejected_frames_leave_state r r' _ hr
+  intro reply hm f hf
+  rw [h reply hm] at hf; cases hf
+
+/-! ### recovery -/
+
+theorem pending_opDisconnect (s : S) : (opDisconnect s).w.pending = s.w.pending := by
+  unfold opDisconnect; split <;> rfl
+theorem connects_opDisconnect (s : S) : (opDisconnect s).w.connects = s.w.connects := by
+  unfold opDisconnect; split <;> rfl
+theorem nConn_opDisconnect (s : S) : (opDisconnect s).w.nConn = s.w.nConn := by
+  unfold opDisconnect; split <;> rfl
+
+/-- **C08 (recovery, V2).** From EVERY state in which the connection is not alive — which is where a
+    final timeout, a protocol error of the read, a peer close, a refused or a hanging connect leave
+    the object (see `tx_bounds`, `failed_read_drops_connection`) — on a quiet network: if the next
+    connection attempt succeeds and the device answers the first packet on it within the read
+    timeout with a packet that decodes to `f`, the exchange returns exactly `[f]` after a single
+    transmission; no user intervention. -/
+theorem recovery_v2 (p : Params) (rx : Reactions) (s : S) (frame : Bytes) (n : Nat) (cs : List ConnOutcome)
+    (hver : s.l.version ≠ 3) (hal : connAlive s = false) (hquiet : s.w.pending = [])
+    (hconn : s.w.connects = .ok :: cs)
+    (d : Nat) (b f : Bytes) (hrx : rx (s.w.nConn + 1) 0 = [(d, .data b)]) (hd : d ≤ p.readTimeout)
+    (hdec : packetDecode b = .ok f) :
+    ∃ s', lanSend p rx s frame (n + 1) = (.ok [f], s') ∧ nData (evsOf s') = nData (evsOf s) + 1 := by
+  let s1 := opConnected (dropConnect (opDisconnect s))
+  have hoc : opConnect p (opDisconnect s) = (.ok (), s1) := by
+    unfold opConnect; rw [connects_opDisconnect, hconn]
+  have hv1 : isV3 s1 = false := by
+    rw [isV3_opConnected]; simp [dropConnect, hver]
+  have hea : ensureAuth p rx s1 = (.ok (), s1) := by unfold ensureAuth; simp [hv1]
+  let c1 : Conn := { core := { cid := s.w.nConn + 1, v3 := decide (s.l.version = 3) } }
+  have hc1 : s1.l.conn = some c1 := by
+    simp [s1, opConnected, logEv, dropConnect, nConn_opDisconnect, c1]
+  have hv : c1.core.v3 = false := by simp [c1, hver]
+  have hready : Ready s1 c1 := ⟨hc1, rfl, rfl, by
+      show (opDisconnect s).w.pending = []
+      rw [pending_opDisconnect]; exact hquiet, by rw [hv]; intro h; cases h⟩
+  have hpre : readAvailable (queueLen s1 + 1) s1 [] = (.ok [], s1) := by
+    simp [readAvailable, queueHead, hc1, c1]
+  obtain ⟨s2, c2, hloop, hn2, hc2, hq2, _⟩ := sendLoop_answered_at (p := p) (rx := rx) (frame := frame) 0 (n + 1) s1 c1 []
+    (by omega) hready (by intro i hi; omega) d b b f [] (by simpa [c1] using hrx) hd (by simp [segQueue, hv])
+    (by simp [decodeWith, hv]; exact hdec)
+  have hpost : readAvailable (queueLen s2 + 1) s2 ([] ++ [f]) = (.ok [f], s2) := by
+    simp [readAvailable, queueHead, hc2, hq2]
+  refine ⟨s2, ?_, ?_⟩
+  · unfold lanSend
+    rw [if_pos (by simp [hal]), hoc]
+    simp only
+    rw [hea]
+    simp only
+    unfold exchange
+    rw [hpre]; simp only
+    rw [hloop]; simp only
+    exact hpost
+  · rw [hn2]
+    have : nData (evsOf s1) = nData (evsOf s) := by
+      have h1 : evsOf s1 = evsOf (opDisconnect s) ++ [.connect ((opDisconnect s).w.nConn + 1) (decide ((opDisconnect s).l.version = 3))] := by
+        simp [s1, opConnected, evsOf, logEv, dropConnect]
+      rw [h1, nData_append, nData_evsOf_opDisconnect]
+      simp [nData, isData]
+    rw [this]
+
+/-- **C08 (a failed read drops the connection).** Whatever the peer sent: if the retry loop ends in an
+    error, either the connection has been dropped, or the transport had refused the write (it is
+    closing / closed, or not authenticated) and the state is unchanged — in both cases the next
+    exchange starts by reconnecting (`C07.lifetime_forces_new_connection`). -/
+theorem failed_read_drops_connection (p : Params) (rx : Reactions) (frame : Bytes) (n : Nat) :
+    ∀ (s s' : S) (acc : List Bytes) (e : Err), QOk s → (coreOf s).isSome = true →
+      sendLoop p rx frame n s acc = (.error e, s') →
+      s'.l.conn = none ∨ opWrite rx s' frame = .error e := by
+  induction n with
+  | zero => intro s s' acc e _ _ h; unfold sendLoop at h; cases h
+  | succ n ih =>
+    intro s s' acc e hq hs h
+    unfold sendLoop at h
+    have hw := opWrite_contain (rx := rx) (f := frame) hs hq
+    split at h
+    · rename_i e' he
+      simp only [Prod.mk.injEq, Except.error.injEq] at h
+      obtain ⟨rfl, rfl⟩ := h
+      exact .inr he
+    · rename_i s1 hw1
+      have hq1 := hw.2 s1 hw1
+      obtain ⟨ev, hdata, ht1⟩ := opWrite_tr hw1
+      have hk1 := tr_keeps_conn ht1 (by
+        intro x hx; simp only [List.mem_singleton] at hx; subst hx
+        rcases hdata with ⟨_, _, _, rfl⟩ | ⟨_, rfl⟩ <;> exact ⟨rfl, rfl⟩) hs
+      split at h
+      · rename_i s2 ha
+        obtain ⟨hq2, _⟩ := qok_awaitQueue _ hq1 ha
+        have hs2 : (coreOf s2).isSome = true := coreSome_of_abs (abs_of_awaitQueue ha) hk1.1
+        split at h
+        · exact ih s2 s' acc e hq2 hs2 h
+        · simp only [Prod.mk.injEq] at h
+          obtain ⟨_, rfl⟩ := h
+          exact .inl (conn_opDisconnect s2)
+      · rename_i raw s2 ha
+        obtain ⟨hq2, hlen⟩ := qok_awaitQueue _ hq1 ha
+        split at h
+        · simp only [Prod.mk.injEq] at h
+          obtain ⟨_, rfl⟩ := h
+          exact .inl (conn_opDisconnect s2)
+        · simp only [Prod.mk.injEq] at h
+          obtain ⟨_, rfl⟩ := h
+          exact .inl (conn_opDisconnect s2)
+        · rename_i e' hne _ he
+          exact absurd (decodeRead_protocol (hlen raw rfl) he) hne
+        · simp only [Prod.mk.injEq] at h
+          obtain ⟨h1, _⟩ := h
+          cases h1
+
+/-! non-vacuity: a ready state exists and a one-packet V2 answer is a `segQueue` of one item -/
+example : Ready { l := { conn := some { core := { cid := 1, v3 := false } } } } { core := { cid := 1, v3 := false } } :=
+  ⟨rfl, rfl, rfl, rfl, by intro h; cases h⟩
+example : segQueue false [] [1, 2, 3] = [[1, 2, 3]] := rfl
+
 end Msmart.Props.C08
